@@ -46,6 +46,7 @@ def tid_of(target, key):
 
 
 class UpdateTaskState(Unit):
+    bounded = True
     name = "C.update_task_state"
     functions = [
         "orquesta.conducting.WorkflowConductor.update_task_state",
